@@ -170,6 +170,10 @@ func (p Prop[P]) Check(t *testing.T) {
 	rapid.Check(t, func(rt *rapid.T) {
 		plan := p.Gen(rt)
 		c, err := safeRun(p.Run, plan)
+		if err != nil && strings.HasPrefix(err.Error(), "infra:") {
+			// the harness itself failed: undecided, never a violation
+			rt.Fatalf("%v", err)
+		}
 		if err != nil {
 			known, path := p.triage(plan, err)
 			if known {
